@@ -215,7 +215,7 @@ static std::vector<Op> writer_ops(const ykc::Shape& sh) {
 
 static void family_scanc(std::vector<hm::Scenario>& out, unsigned oracles, bool with_nv, const char* fam) {
     auto shapes = ykc::all_shapes();
-    const std::vector<std::string> use = {"B3", "B15", "I2_8_8", "I2_1_8", "I3_8_1_8", "I2_8_15", "L1one", "L1_3", "L1full", "L1I2_1_8", "L2", "EMPTYROOT"};
+    const std::vector<std::string> use = {"B3", "B15", "I2_8_8", "I2_1_8", "I3_8_1_8", "I2_8_15", "L1one", "L1_3", "L1full", "L1I2_1_8", "L2", "EMPTYROOT", "I2_1_1", "I3_1_1_1"};
     const std::set<std::string> quick_shapes = {"B3", "B15", "I3_8_1_8", "L1one", "L1full", "L1I2_1_8", "I2_8_15"};
     {
         // interior split cascade with a new root under a scan
@@ -266,6 +266,19 @@ static void family_scanc(std::vector<hm::Scenario>& out, unsigned oracles, bool 
                 add(out, fam, *sh, {{scans[si]}, {w}}, oracles, quick, 2, 3);
             }
         }
+        // a narrow scan whose in-range keys are all removed while it runs, followed by an insert of an out-of-range key into the same
+        // node (which forces the scan to re-read the node): the node must still be in the version set afterwards, because a later
+        // insert into the (now empty) covered range lands in it (probed at the end of every execution)
+        if (with_nv && init.size() >= 3) {
+            std::vector<std::string> ks(init.begin(), init.end());
+            std::string below = ks[0] + "5";
+            if (init.count(below) == 0 && below < ks[1]) {
+                bool q = quick_shapes.count(sn) != 0;
+                add(out, fam, *sh, {{mkscan(ks[1], scan_endpoint::INCLUSIVE, ks[1], scan_endpoint::INCLUSIVE, 0, false, true)}, {mk(REMOVE, ks[1]), mk(PUT, below, 2)}}, oracles, q, 2, 3);
+                add(out, fam, *sh, {{mkscan(ks[1], scan_endpoint::INCLUSIVE, ks[2], scan_endpoint::INCLUSIVE, 0, false, true)}, {mk(REMOVE, ks[1]), mk(REMOVE, ks[2]), mk(PUT, below, 2)}}, oracles, q && sn != "I2_8_15" && sn != "B15", 2, 2);
+                add(out, fam, *sh, {{mkscan(ks[1], scan_endpoint::INCLUSIVE, "", scan_endpoint::INF, 0, false, true)}, {mk(REMOVE, ks[1]), mk(PUT, below, 2)}}, oracles, false, 2, 2);
+            }
+        }
         // slot reuse under a scan: the writer removes a key and inserts another one (or the same) into the freed slot
         if (!with_nv && sh->pal.count("in") != 0) {
             std::vector<std::string> targets = {sh->pal.at("in")};
@@ -307,6 +320,11 @@ static void family_overwrite(std::vector<hm::Scenario>& out, unsigned oracles) {
             add(out, "overwrite", *sh, {{mk(GET, k)}, {mk(PUT, k, 2)}}, oracles, true, 2, 3);
             add(out, "overwrite", *sh, {{full}, {mk(PUT, k, 2)}}, oracles, true, 2, 3);
             add(out, "overwrite", *sh, {{cur}, {mk(PUT, k, 2)}}, oracles, true, 2, 3);
+            // overwrite with a value of exactly the stored length (the case in which re-using the stored buffer would be possible)
+            add(out, "overwrite", *sh, {{mk(GET, k)}, {mk(PUT, k, 10)}}, oracles, true, 2, 3);
+            add(out, "overwrite", *sh, {{full}, {mk(PUT, k, 10)}}, oracles, true, 2, 3);
+            add(out, "overwrite", *sh, {{cur}, {mk(PUT, k, 10)}}, oracles, true, 2, 3);
+            add(out, "overwrite", *sh, {{mk(GET, k), mk(GET, k)}, {mk(PUT, k, 10), mk(PUT, k, 11)}}, oracles, false, 2, 2);
             add(out, "overwrite", *sh, {{mk(GET, k), mk(GET, k)}, {mk(PUT, k, 2), mk(PUT, k, 3)}}, oracles, false, 2, 2);
             add(out, "overwrite", *sh, {{mk(GET, k)}, {mk(PUT, k, 2)}, {mk(PUT, k, 3)}}, oracles, false, 2, 2);
         }
@@ -316,7 +334,7 @@ static void family_overwrite(std::vector<hm::Scenario>& out, unsigned oracles) {
 // cursor API under concurrent writers (C10, second sentence)
 static void family_iscanc(std::vector<hm::Scenario>& out, unsigned oracles) {
     auto shapes = ykc::all_shapes();
-    const std::vector<std::string> use = {"B3", "B15", "I3_8_1_8", "I2_8_15", "L1one", "L1_3", "L1full", "L1I2_1_8", "L2", "I2_1_8"};
+    const std::vector<std::string> use = {"B3", "B15", "I3_8_1_8", "I2_8_15", "L1one", "L1_3", "L1full", "L1I2_1_8", "L2", "I2_1_8", "I2_1_1", "I3_1_1_1"};
     const std::set<std::string> quick_shapes = {"B15", "I3_8_1_8", "L1one", "L1full", "L1I2_1_8", "L1_3"};
     for (auto& sn : use) {
         const ykc::Shape* sh = ykc::find_shape(shapes, sn);
@@ -379,6 +397,20 @@ static void family_struct(std::vector<hm::Scenario>& out, unsigned oracles, cons
     P("I2_8_1", {{mk(REMOVE, "09")}, {mk(PUT, "10", 2)}}, true);
     P("I2_8_1", {{mk(REMOVE, "09")}, {mk(PUT, "085", 2)}}, true);
     P("I2_8_1", {{mk(REMOVE, "09"), mk(PUT, "09", 2)}, {mk(REMOVE, "08"), mk(PUT, "095", 2)}}, false);
+    // 1 | 1 and 1 | 1 | 1: sibling borders emptied at the same time (unlink of one while the other is unlinked / promoted to
+    // root / left behind as the empty root), then revived by an insert
+    P("I2_1_1", {{mk(REMOVE, "08")}, {mk(REMOVE, "09")}}, true);
+    P("I2_1_1", {{mk(REMOVE, "08")}, {mk(REMOVE, "09"), mk(PUT, "09", 2)}}, true);
+    P("I2_1_1", {{mk(REMOVE, "08"), mk(PUT, "08", 2)}, {mk(REMOVE, "09")}}, true);
+    P("I2_1_1", {{mk(REMOVE, "08"), mk(PUT, "10", 2)}, {mk(REMOVE, "09"), mk(PUT, "07", 2)}}, false);
+    P("I3_1_1_1", {{mk(REMOVE, "08")}, {mk(REMOVE, "09")}}, true);
+    P("I3_1_1_1", {{mk(REMOVE, "09")}, {mk(REMOVE, "17")}}, true);
+    P("I3_1_1_1", {{mk(REMOVE, "08")}, {mk(REMOVE, "17")}}, true);
+    P("I3_1_1_1", {{mk(REMOVE, "08")}, {mk(REMOVE, "09")}, {mk(REMOVE, "17")}}, true);
+    P("I3_1_1_1", {{mk(REMOVE, "08")}, {mk(REMOVE, "09")}, {mk(REMOVE, "17"), mk(PUT, "17", 2)}}, false);
+    P("L1I2_1_1", {{mk(REMOVE, ykc::P8() + "08")}, {mk(REMOVE, ykc::P8() + "09")}}, true);
+    P("L1I2_1_1", {{mk(REMOVE, ykc::P8() + "08")}, {mk(REMOVE, ykc::P8() + "09"), mk(PUT, ykc::P8() + "09", 2)}}, true);
+    P("L1I2_1_1", {{mk(REMOVE, ykc::P8() + "08"), mk(PUT, ykc::P8() + "08", 2)}, {mk(REMOVE, ykc::P8() + "09")}}, false);
     // I2_8_15: split of the right node vs operations on the left node
     P("I2_8_15", {{mk(PUT, "24", 2)}, {mk(PUT, "155", 2)}}, true);
     P("I2_8_15", {{mk(PUT, "24", 2)}, {mk(REMOVE, "09")}}, true);
